@@ -130,6 +130,19 @@ func main() {
 				e.Strs("activeSuicideBranches", br, "Active.Suicide: what is removed, in source order")
 			}
 		}
+		if f, err := r.Load("disk/doc_blocks_reader.go"); err != nil {
+			e.Missing("doc_blocks_reader.go", err)
+		} else if fd := f.Func("DocBlocksReader", "ReadDocBlock"); fd == nil {
+			e.Missing("readDocBlockStmts", "ReadDocBlock not found")
+		} else {
+			// Replay takes (io.EOF, size != 0) from ReadDocBlock for a torn tail and truncates: ReadDocBlock must report
+			// EOF only when the file really ends - its statements are pinned
+			var st []string
+			for _, x := range fd.Body.List {
+				st = append(st, f.Render(x))
+			}
+			e.Strs("readDocBlockStmts", st, "DocBlocksReader.ReadDocBlock: its statements")
+		}
 		if f, err := r.Load("frac/sealed.go"); err != nil {
 			e.Missing("sealed.go", err)
 		} else if fd := f.Func("", "NewSealed"); fd == nil {
